@@ -4,6 +4,8 @@ import Bcder.Props.C11c
 #print axioms Bcder.Props.C11.capture_exact
 #print axioms Bcder.Props.C11c.framable_bind
 #print axioms Bcder.Props.C11c.capture_run1
+#print axioms Bcder.Props.C11c.framable_pnv
+#print axioms Bcder.Props.C11c.framable_asConstructed
 #print axioms Bcder.Props.C11c.framable_capture
 #print axioms Bcder.Props.C11c.good_pnv
 #print axioms Bcder.Props.C11c.good_pnvIf
